@@ -20,6 +20,9 @@ def main():
     diff = os.path.join(out, f"change{n}.diff")
     demo = os.path.join(out, f"demo{n}_test.go")
     meta_txt = open(os.path.join(out, f"meta{n}.txt")).read() if os.path.exists(os.path.join(out, f"meta{n}.txt")) else ""
+    if not os.path.exists(diff):   # re-run of an already recorded seed: <out> = /verif/seeded/<id>
+        diff, demo = os.path.join(out, "patch.diff"), os.path.join(out, "demo_test.go")
+        meta_txt = json.load(open(os.path.join(out, "meta.json"))).get("meta", "")
     head = open(demo).read(2000)
     pkg = re.search(r"^package (\w+)", open(demo).read(), re.M).group(1)
     pkgdir = {"packet": ".", "fastlog": "fastlog", "arp_spoofer": "handlers/arp_spoofer", "dhcp4_spoofer": "handlers/dhcp4_spoofer",
@@ -71,8 +74,9 @@ def main():
     res["caught_by"] = [r["check"] for r in res["ran"] if r["exit"] == 1]
     d = os.path.join(V, "seeded", sid)
     os.makedirs(d, exist_ok=True)
-    shutil.copy(diff, os.path.join(d, "patch.diff"))
-    shutil.copy(demo, os.path.join(d, "demo_test.go"))
+    if os.path.abspath(diff) != os.path.abspath(os.path.join(d, "patch.diff")):
+        shutil.copy(diff, os.path.join(d, "patch.diff"))
+        shutil.copy(demo, os.path.join(d, "demo_test.go"))
     json.dump(res, open(os.path.join(d, "meta.json"), "w"), indent=1)
     print(json.dumps({k: res[k] for k in ["id", "builds", "existing_tests_pass_with_change", "demo_fails_with_change", "demo_passes_without_change", "caught_by"]}))
     for r in res["ran"]:
